@@ -1,8 +1,12 @@
 package main
 
 import (
+	"errors"
 	"fmt"
 	"strings"
+
+	"code.gopub.tech/tpl/exp"
+	"code.gopub.tech/tpl/html"
 )
 
 func init() { props["C12"] = propC12 }
@@ -257,6 +261,120 @@ func propC12(c *ctx) error {
 			}
 		}
 	}
+	// ---------- a scope whose lookup FAILS (for a reason other than "absent") fails the expression and the render, and the
+	// error wraps the cause — wherever that scope sits (innermost, a middle layer, the manager's global scope) and whatever
+	// the scopes further out define under the same name (user maps, the built-in functions)
+	{
+		cause := errors.New("settings backend is down")
+		type layerSpec struct {
+			kind string // "fail" | "map"
+			keys []string
+		}
+		mkScope := func(ls layerSpec, asked *[]string) exp.Scope {
+			if ls.kind == "map" {
+				m := map[string]any{}
+				for _, k := range ls.keys {
+					m[k] = "outer-" + k
+					if k == "print" || k == "len" {
+						m[k] = func(xs ...any) string { return "outer-fn" }
+					}
+				}
+				return exp.NewScope(m)
+			}
+			owned := map[string]bool{}
+			for _, k := range ls.keys {
+				owned[k] = true
+			}
+			return scopeFunc(func(name string) (any, error) {
+				if !owned[name] {
+					return nil, fmt.Errorf("settings: %q: %w", name, exp.ErrNoSuchValue)
+				}
+				*asked = append(*asked, name)
+				return nil, fmt.Errorf("settings: load %q: %w", name, cause)
+			})
+		}
+		names := []string{"motto", "print", "len", "g", "true", "isNil"}
+		srcOf := func(name string) []string {
+			switch name {
+			case "print", "len", "isNil":
+				return []string{name + "(1)", name, "1 + " + name + "('a')", "(" + name + ")(2)"}
+			}
+			return []string{name, name + " + 'x'", "'' + " + name, name + " == 1", "(" + name + ")", name + " ? 1 : 2", "!" + name, name + ".f", name + "[0]"}
+		}
+		for _, name := range names {
+			for pos := 0; pos < 3; pos++ { // position of the failing layer among three (0 = innermost)
+				for outerHas := 0; outerHas < 2; outerHas++ {
+					layers := []layerSpec{{"map", []string{"i0"}}, {"map", []string{"i1"}}, {"map", []string{"i2"}}}
+					layers[pos] = layerSpec{"fail", []string{name}}
+					if outerHas == 1 && pos < 2 {
+						layers[pos+1] = layerSpec{"map", []string{name}}
+					}
+					for _, src := range srcOf(name) {
+						var asked []string
+						sc := exp.WithDefaultScope(exp.Combine(mkScope(layers[0], &asked), exp.Combine(mkScope(layers[1], &asked), mkScope(layers[2], &asked))))
+						var v any
+						var err error
+						func() {
+							defer func() {
+								if x := recover(); x != nil {
+									err = fmt.Errorf("escaped panic: %v", x)
+								}
+							}()
+							tree, perr := exp.ParseCode(src)
+							if perr != nil {
+								err = perr
+								return
+							}
+							v, err = exp.Evaluate(exp.NewPos(1, 1), tree, sc)
+						}()
+						cs := J{"src": src, "failing_layer": pos, "outer_defines_name": outerHas == 1, "name": name}
+						res.eval("failscope|"+jstr(cs), true, cs)
+						res.S3Checked++
+						res.count("failing_scope_lookups")
+						if err == nil {
+							res.violate(cs, "error wrapping the cause", fmt.Sprintf("value %v", v), "the lookup of a name failed in the scope that owns it, but the expression produced a value (taken from a scope further out)")
+						} else if !errors.Is(err, cause) {
+							res.violate(cs, "error wrapping the cause", trunc(err.Error(), 200), "the error of a failed lookup does not wrap the cause")
+						} else if len(asked) == 0 {
+							res.violate(cs, "the owning scope is asked", "never asked", "the scope that owns the name was not consulted")
+						}
+					}
+				}
+			}
+			// template level: the failing scope is the manager's global scope, under the data passed to Execute
+			for _, slot := range []string{`<p :text="${%s}">x</p>`, `<p :title="a${%s}">x</p>`, `<p :if="${%s}">x</p>`, `<p :with="q := ${%s}">x</p>`, `<p :range="x : %s">x</p>`, `<p :insert="${%s}">x</p>`} {
+				var asked []string
+				g := mkScope(layerSpec{"fail", []string{name}}, &asked)
+				m := html.NewTplManager().SetGlobalScope(g)
+				src := "<h1>a</h1>" + fmt.Sprintf(slot, srcOf(name)[0]) + "<i>tail</i>"
+				cs := J{"tpl": src, "global": "failing scope owning " + name}
+				if err := m.Add("t", strings.NewReader(src)); err != nil {
+					continue
+				}
+				t, _ := m.GetTemplate("t")
+				var sb strings.Builder
+				var err error
+				func() {
+					defer func() {
+						if x := recover(); x != nil {
+							err = fmt.Errorf("escaped panic: %v", x)
+						}
+					}()
+					err = t.Execute(&sb, map[string]any{"other": 1})
+				}()
+				res.eval("failscope-tpl|"+src, true, cs)
+				res.S3Checked++
+				switch {
+				case err == nil:
+					res.violate(cs, "Execute error wrapping the cause", "nil, output "+sb.String(), "a failed lookup in the global scope does not fail the render")
+				case !errors.Is(err, cause):
+					res.violate(cs, "Execute error wrapping the cause", trunc(err.Error(), 200), "the Execute error does not wrap the cause of the failed lookup")
+				case strings.Contains(sb.String(), "tail") || !strings.HasPrefix(sb.String(), "<h1>a</h1>"):
+					res.violate(cs, "prefix up to the failing element", sb.String(), "output after a failed lookup")
+				}
+			}
+		}
+	}
 	// ---------- template level: a slot that fails vs the same slot succeeding; writer failing at every index
 	tn := c.n(250, 8000)
 	slots := []string{"text", "raw", "title", "if", "with", "range", "insert", "elif"}
@@ -389,3 +507,8 @@ func contains(xs []string, x string) bool {
 	}
 	return false
 }
+
+// scopeFunc adapts a function to exp.Scope
+type scopeFunc func(name string) (any, error)
+
+func (f scopeFunc) Get(name string) (any, error) { return f(name) }
